@@ -27,6 +27,12 @@ CHECKS = {
             'available margin, live orders and every accept/reject verdict are compared with an exact rational reference in every state.',
             'Reduce-only orders only on the closing side of an open position; verdicts within 1e-9 of the threshold are dont-care. Depth 4-5 quick / 5-6 thorough, <=2-3 live orders.',
             'DESIGN.md 3/C03'),
+    'C05': ('opseq', 'explicit-state BFS over order life-cycle histories (submit, execute, cancel, repeated calls on final orders, cancel-all, market-queue flush, update-active) on the real registries, 3-state life-cycle model compared in every state',
+            'Every such history up to the stated depth, spot and futures, runs on the real Order/OrdersState/Sandbox/ClosedTrades objects; in every state each order status '
+            'equals the model (one terminal step, frozen afterwards), count_active_orders equals the non-final orders, update_active_orders leaves exactly those, every executed '
+            'order sits in exactly one trade, and a call on a final order must leave the whole canonical state (balances, margin tables, positions, trades) identical.',
+            'Account comparison of C03/C04 stays on. Depth 4-5 quick / 5-6 thorough, <=3 live orders. The simulator-made duplicate calls are additionally monitored in the session checks.',
+            'DESIGN.md 3/C05'),
 }
 
 NOT_APPLICABLE = {}
